@@ -163,6 +163,11 @@ func (c *client) loop() {
 			}
 			s.keys = []string{rm.CorrelatedInvocationsId, rm.ToolInvocationId, rm.ActionMnemonic}
 			s.priority = pick(t, priorities)
+			if w.fair && t.Bool(3, 4) {
+				// Equal priorities make ties, which is where the
+				// tie-breaking rules of the policy become visible.
+				s.priority = 0
+			}
 			bin, _ := proto.Marshal(rm)
 			s.ctx = metadata.NewIncomingContext(s.ctx, metadata.Pairs("build.bazel.remote.execution.v2.requestmetadata-bin", string(bin)))
 			req := &remoteexecution.ExecuteRequest{
